@@ -1056,8 +1056,26 @@ func (fv *FV) lhsComps(x ast.Expr) ([]string, bool) {
 	return nil, true
 }
 
-// callWriteComps: components a call may write (static over-approximation).
+// callWriteComps: components a call may write (static over-approximation),
+// including the ghost call counters (bump: classes) the call itself increments -
+// also when the callee is pure or has an explicit `modifies` clause.
 func (fv *FV) callWriteComps(x *ast.CallExpr) ([]string, bool) {
+	cs, all := fv.callWriteComps0(x)
+	if all {
+		return nil, true
+	}
+	if fn, _, _ := fv.calleeOf(x); fn != nil {
+		for _, b := range fv.eng.bumpsOf(fn) {
+			if b.in != "" && (fv.u == nil || fv.u.Spec == nil || fv.u.Spec.Dir != b.in) {
+				continue
+			}
+			cs = append(cs, regSort("G$"+sanitize(b.name), idxRef, sInt))
+		}
+	}
+	return cs, false
+}
+
+func (fv *FV) callWriteComps0(x *ast.CallExpr) ([]string, bool) {
 	if !fv.callMayWriteHeap(x) {
 		return nil, false
 	}
